@@ -47,8 +47,8 @@ TRUSTED = [
     "optimality: Eckart-Young is PROVED for competitors Q C Q^T with Q any orthonormal d-frame, C any d x d matrix, "
     "B positive semi-definite (Mds_factor_optimal, every ordered field; uses Ky Fan's inequality from "
     "Spectral_KyFan.v); that every rank-d symmetric matrix over the reals has that form, and the case of negative "
-    "eigenvalues, are cited; the rank argument 'points span <= d dimensions => all but d eigenvalues vanish' is a "
-    "hypothesis of Mds_recovers_euclidean_partial",
+    "eigenvalues, are cited; the rank argument 'points span <= d dimensions => all but d eigenvalues vanish' is "
+    "proved (Mds_recovers_euclidean, exact arithmetic at Qc, any ascending orthonormal eigen-answer)",
     "the randomized front-end (Gaussian test matrix, Gram-Schmidt, QR solve) is not modelled step by step: "
     "its algebra is the theorem Mds_randomized_exact_on_captured_range, its behaviour is tested end to end",
     "extraction (ExtrOcamlBasic only) + OCaml 4.13.1 + coq/extract/c05_driver.ml (hex rational parsing/printing)",
@@ -110,10 +110,11 @@ def maxabs(A):
 # ----------------------------------------------------------------------------- processes
 class Impl:
     """results of one harness case"""
-    __slots__ = ("R", "X", "crashed", "why", "ended", "garbage")
+    __slots__ = ("R", "X", "crashed", "why", "ended", "garbage", "skipped")
 
     def __init__(self):
         self.R, self.X, self.crashed, self.why, self.ended, self.garbage = {}, None, False, None, False, False
+        self.skipped = False
 
     def mat(self, tag):
         """-> (rows, cols, list of list of Fraction|None) or None"""
@@ -126,14 +127,21 @@ class Impl:
         return r, c, [vals[i * c:(i + 1) * c] for i in range(r)]
 
 
-def run_impl(ctx, exe, lines, per_case_timeout=60):
+def run_impl(ctx, exe, lines, per_case_timeout=40):
     """run harness lines; survives crashes / hangs by restarting after the case that died"""
     results = [None] * len(lines)
     start = 0
+    deaths = 0
     while start < len(lines):
+        if deaths >= 4:
+            # a tree that aborts / hangs again and again: the first few inputs are the replays, stop paying for more
+            for i in range(start, len(lines)):
+                results[i] = Impl()
+                results[i].skipped = True
+            break
         chunk = lines[start:]
         t0 = ctx.elapsed()
-        r = ctx.run(exe, "\n".join(chunk) + "\n", timeout=max(per_case_timeout, 20 + 2 * len(chunk)),
+        r = ctx.run(exe, "\n".join(chunk) + "\n", timeout=max(per_case_timeout, 15 + len(chunk) // 2),
                     env={"OMP_NUM_THREADS": "2", "OMP_WAIT_POLICY": "passive"})
         TIMES["impl"] += ctx.elapsed() - t0
         cur = None
@@ -171,6 +179,7 @@ def run_impl(ctx, exe, lines, per_case_timeout=60):
             results[bad] = Impl()
         results[bad].crashed = True
         results[bad].why = ("timeout" if r.timed_out else (r.sanitizer or r.err[-600:] or "rc=%d" % r.rc))
+        deaths += 1
         start = bad + 1
     for i, x in enumerate(results):
         if x is None:
@@ -501,6 +510,8 @@ def eval_matrix_stage(ctx, exe, mexe, cases, stats):
     for (i, wcmd), line in zip(midx, mout):
         model[(i, wcmd)] = model_matrix(line)
     for i, (c, r) in enumerate(zip(cases, impl)):
+        if r.skipped:
+            continue
         if r.crashed:
             ctx.violation(slim(c), "the matrix-assembly routines abort on this table: " + str(r.why)[:500])
             continue
@@ -582,6 +593,8 @@ def eval_triangles(ctx, exe, mexe, cases, stats):
     ref = run_impl(ctx, exe, seen_lines)
     for k, c in enumerate(cases):
         raw_a, raw_l, tri_d, tri_r = impl[4 * k: 4 * k + 4]
+        if any(x.skipped for x in (raw_a, raw_l, tri_d, tri_r)) or ref[2 * k].skipped or ref[2 * k + 1].skipped:
+            continue
         if any(x.crashed for x in (raw_a, raw_l, tri_d, tri_r)):
             bad = next(x for x in (raw_a, raw_l, tri_d, tri_r) if x.crashed)
             ctx.violation(slim(c), "solver front-end aborts on a small integer matrix: %s" % bad.why)
@@ -647,6 +660,8 @@ def eval_e2e(ctx, exe, mexe, cases, tab, stats, report=True):
 
     for i, (c, r) in enumerate(zip(cases, impl)):
         n, d = c["n"], c["d"]
+        if r.skipped:
+            continue
         stats["e2e"] += 1
         if r.crashed:
             viol(i, "tapkee::embed (or the routines it calls) aborts / hangs: " + str(r.why)[:600])
@@ -850,7 +865,7 @@ def eval_isomap_vs_mds(ctx, exe, cases, stats):
     for j, c in enumerate(iso):
         a, b = impl[2 * j], impl[2 * j + 1]
         Ea, Eb = a.mat("emb"), b.mat("emb")
-        if a.crashed or b.crashed or Ea is None or Eb is None:
+        if a.crashed or b.crashed or a.skipped or b.skipped or Ea is None or Eb is None:
             continue        # reported by eval_e2e
         n = c["n"]
         Ya = [[fl(x) if x is not None else float("nan") for x in row] for row in Ea[2]]
